@@ -96,6 +96,16 @@ type parser struct {
 	funcEffect a.Effect
 	loops      a.LoopStack
 	allowVar   bool
+
+	// These fields count the parser's own recursion, so that absurdly nested
+	// input is rejected with an error instead of overflowing the stack.
+	exprDepth     uint32
+	typeExprDepth uint32
+	bodyDepth     uint32
+}
+
+func (p *parser) errTooDeep(what string) error {
+	return fmt.Errorf(`parse: %s recursion depth too large at %s:%d`, what, p.filename, p.line())
 }
 
 func (p *parser) line() uint32 {
@@ -207,6 +217,11 @@ func (p *parser) parseTopLevelDecl() (*a.Node, error) {
 			}
 
 			p.funcEffect = p.parseEffect()
+			if p.funcEffect.Coroutine() && (id0 == 0) {
+				// A coroutine's suspension state lives in its receiver struct.
+				return nil, fmt.Errorf(`parse: coroutine %q must be a method at %s:%d`,
+					p.tm.ByID(id1), p.filename, p.line())
+			}
 			flags |= p.funcEffect.AsFlags()
 			argFields, err := p.parseList(t.IDCloseParen, (*parser).parseFieldNode)
 			if err != nil {
@@ -229,6 +244,9 @@ func (p *parser) parseTopLevelDecl() (*a.Node, error) {
 							p.filename, p.line())
 					} else if p.funcEffect.Coroutine() {
 						return nil, fmt.Errorf(`parse: choosy function cannot be a coroutine at %s:%d`,
+							p.filename, p.line())
+					} else if id0 == 0 {
+						return nil, fmt.Errorf(`parse: choosy function must be a method at %s:%d`,
 							p.filename, p.line())
 					}
 					flags |= a.FlagsChoosy
@@ -496,6 +514,12 @@ func (p *parser) parseFieldNode1(flags a.Flags) (*a.Node, error) {
 }
 
 func (p *parser) parseTypeExpr() (*a.TypeExpr, error) {
+	if p.typeExprDepth > a.MaxTypeExprDepth {
+		return nil, p.errTooDeep("type expression")
+	}
+	p.typeExprDepth++
+	defer func() { p.typeExprDepth-- }()
+
 	if x := p.peek1(); x == t.IDNptr || x == t.IDPtr {
 		p.src = p.src[1:]
 		rhs, err := p.parseTypeExpr()
@@ -617,6 +641,12 @@ func (p *parser) parseBracket(sep t.ID) (op t.ID, ei *a.Expr, ej *a.Expr, err er
 }
 
 func (p *parser) parseBlock(doubleCurly bool) ([]*a.Node, error) {
+	if p.bodyDepth > a.MaxBodyDepth {
+		return nil, p.errTooDeep("body")
+	}
+	p.bodyDepth++
+	defer func() { p.bodyDepth-- }()
+
 	if doubleCurly {
 		if x := p.peek1(); x != t.IDOpenDoubleCurly {
 			got := p.tm.ByID(x)
@@ -1013,7 +1043,9 @@ func (p *parser) parseIterateAssignNode() (*a.Node, error) {
 	if op := o.Operator(); op != t.IDEq {
 		return nil, fmt.Errorf(`parse: expected "=", got %q at %s:%d`, op.Str(p.tm), p.filename, p.line())
 	}
-	if lhs := o.LHS(); lhs.Operator() != 0 {
+	if lhs := o.LHS(); lhs == nil {
+		return nil, fmt.Errorf(`parse: expected "=" after %q at %s:%d`, o.RHS().Str(p.tm), p.filename, p.line())
+	} else if lhs.Operator() != 0 {
 		return nil, fmt.Errorf(`parse: expected variable, got %q at %s:%d`, lhs.Str(p.tm), p.filename, p.line())
 	}
 	if rhs := o.RHS(); rhs.Effect() != 0 {
@@ -1192,7 +1224,12 @@ func (p *parser) parseIf() (*a.If, error) {
 	if p.peek1() == t.IDElse {
 		p.src = p.src[1:]
 		if p.peek1() == t.IDIf {
+			if p.bodyDepth > a.MaxBodyDepth {
+				return nil, p.errTooDeep("body")
+			}
+			p.bodyDepth++
 			elseIf, err = p.parseIf()
+			p.bodyDepth--
 			if err != nil {
 				return nil, err
 			}
@@ -1335,7 +1372,12 @@ func (p *parser) parseIterateBlock(label t.ID, assigns []*a.Node) (*a.Iterate, e
 
 	if x := p.peek1(); x == t.IDElse {
 		p.src = p.src[1:]
+		if p.bodyDepth > a.MaxBodyDepth {
+			return nil, p.errTooDeep("body")
+		}
+		p.bodyDepth++
 		elseIterate, err := p.parseIterateBlock(0, nil)
+		p.bodyDepth--
 		if err != nil {
 			return nil, err
 		}
@@ -1419,6 +1461,11 @@ func (p *parser) parsePossibleListExpr() (*a.Expr, error) {
 	if x := p.peek1(); x != t.IDOpenBracket {
 		return p.parseExpr()
 	}
+	if p.exprDepth > a.MaxExprDepth {
+		return nil, p.errTooDeep("expression")
+	}
+	p.exprDepth++
+	defer func() { p.exprDepth-- }()
 	p.src = p.src[1:]
 	args, err := p.parseList(t.IDCloseBracket, (*parser).parsePossibleListExprNode)
 	if err != nil {
@@ -1428,6 +1475,12 @@ func (p *parser) parsePossibleListExpr() (*a.Expr, error) {
 }
 
 func (p *parser) parseExpr() (*a.Expr, error) {
+	if p.exprDepth > a.MaxExprDepth {
+		return nil, p.errTooDeep("expression")
+	}
+	p.exprDepth++
+	defer func() { p.exprDepth-- }()
+
 	e, err := p.parseExpr1()
 	if err != nil {
 		return nil, err
@@ -1491,7 +1544,12 @@ func (p *parser) parseOperand() (*a.Expr, error) {
 	switch x := p.peek1(); {
 	case x.IsUnaryOp():
 		p.src = p.src[1:]
+		if p.exprDepth > a.MaxExprDepth {
+			return nil, p.errTooDeep("expression")
+		}
+		p.exprDepth++
 		rhs, err := p.parseOperand()
+		p.exprDepth--
 		if err != nil {
 			return nil, err
 		}
